@@ -98,9 +98,10 @@ def plain_cases(rng, n):
         out.append(({"fam": "cachekey", "op": "key", "fn": fn, "reps": 24, "cfg": cfg}, {"fn": fn, "cfg": cfg, "pair": None}))
         mut = g.mutate_plain(rng, fn, cfg)
         if mut:
-            cfg2, what = mut
+            cfg2, what = mut[:2]
+            # pair "same": the two configurations differ in nothing the key function may tell apart
             out.append(({"fam": "cachekey", "op": "key", "fn": fn, "reps": 24, "cfg": cfg2},
-                        {"fn": fn, "cfg": cfg2, "pair": True, "what": what}))
+                        {"fn": fn, "cfg": cfg2, "pair": mut[2] if len(mut) > 2 else True, "what": what}))
     return out
 
 
@@ -153,8 +154,17 @@ def check_keys(R, exe, pairs, stats, label):
         elif not ik or not set(ik) <= set(mk):
             found.append(("model", f"{fn}: key of the implementation differs from SHA-256 of the bytes the extracted "
                                    f"field list writes", {"case": c, "impl": i, "model": mo}))
+        if fn == "jwtSigner":
+            for how in c["cfg"].get("reloads") or []:
+                stats["dim:signer_reload_" + how] += 1
         j = idx - 1 if me.get("pair") else None
-        if j is not None and isinstance(impl[j], dict) and "keys" in impl[j]:
+        if j is not None and me["pair"] == "same" and isinstance(impl[j], dict) and "keys" in impl[j]:
+            stats["key_pairs_equal"] += 1
+            if set(ik) != set(impl[j]["keys"]):
+                found.append(("spec", f"{fn}: the same configuration gets another key ({me['what']}): identical requests "
+                                      f"would no longer be answered from the cache",
+                              {"case": c, "other": cases[j], "pair": "same", "impl": i, "impl_other": impl[j], "model": mo}))
+        elif j is not None and isinstance(impl[j], dict) and "keys" in impl[j]:
             stats["key_pairs"] += 1
             if set(ik) & set(impl[j]["keys"]):
                 stats["ambiguous_pairs"] += 1
@@ -224,22 +234,36 @@ def predicted_failure(m, step):
     return False
 
 
+# sources of a key function that a reload replaces while the mechanism lives (Model/CacheReload.lean: the state)
+RELOADABLE = {"jwtFinalizer": ["signer"]}
+
+
 def driver_run_case(m, steps, impl):
+    """the history for the Lean driver: requests and reloads. What a reload replaces (the digest of the signer) is not
+    part of a step's own values: it is the state, given for the start of the history and with every step at which the
+    history changes the key store (`rotate`, `reload`) — there it is what the harness observed right after the change."""
     srv = impl.get("srv", g.SRV)
     pol_ids = {}
     dsteps = []
+    state0 = None
     for i, s in enumerate(steps):
         oi = s.get("override", 0)
         obs = impl["on"][i].get("obs") or {}
         env = g.mech_env(m, oi, s, srv, obs)
+        state = {"sub": {lbl: env["sub"].pop(lbl) for lbl in RELOADABLE.get(m["kind"], []) if lbl in env.get("sub", {})}}
         pid = pol_ids.setdefault(g.policy_of(m, oi), len(pol_ids))
         en, ttl = g.cache_of(m, oi)
         dsteps.append({"t": i, "env": env, "policy": pid, "enabled": en, "ttl": ttl})
+        if i == 0:
+            state0 = state
+        elif s.get("rotate") or s.get("reload"):
+            dsteps[-1]["reload"] = state
     verdicts = [{"policy": pid, "origin": j, "ok": accepts(m, pol, s)} for pol, pid in pol_ids.items()
                 for j, s in enumerate(steps)]
     fails = [j for j, s in enumerate(steps) if predicted_failure(m, s)]
     fn = "clientCredentialsKey" if m["kind"] == "ccFinalizer" else m["kind"]
-    return {"fam": "cachekey", "op": "run", "fn": fn, "steps": dsteps, "verdicts": verdicts, "fails": fails}
+    return {"fam": "cachekey", "op": "run", "fn": fn, "steps": dsteps, "verdicts": verdicts, "fails": fails,
+            "state": state0 or {}}
 
 
 def judge_history(m, steps, impl, mo):
@@ -259,11 +283,17 @@ def judge_history(m, steps, impl, mo):
             res.append(("spec", f"step {i}: the result differs from a fresh one in its types or forwarded headers "
                                 f"(with cache {a.get('typed')} / {a.get('up')}, fresh {b.get('typed')} / {b.get('up')})"))
     # SPEC 2: reuse — an identical request under the same rule after a successful one causes no remote call
-    epoch, e = [], 0
-    for s in steps:
-        e += 1 if s.get("rotate") else 0
-        epoch.append(e)
-    plain = [{k: v for k, v in s.items() if k != "rotate" and not k.startswith("_")} for s in steps]
+    epoch = g.key_epochs(steps)      # which key the key store of the signer holds
+    plain = [{k: v for k, v in s.items() if k not in ("rotate", "reload") and not k.startswith("_")} for s in steps]
+    if kind == "jwtFinalizer":
+        # the check's own bookkeeping of the key store against what the signer publishes (keyholder.Keys())
+        tp = [(r.get("obs") or {}).get("jwk.Thumbprint(crypto.SHA256)") for r in on]
+        for j in range(len(steps)):
+            for i in range(j):
+                if (epoch[i] == epoch[j]) != (tp[i] == tp[j]):
+                    res.append(("oracle", f"steps {i} and {j}: key store holds key {epoch[i]} / {epoch[j]} but the signer "
+                                          f"publishes {'the same key' if tp[i] == tp[j] else 'different keys'}"))
+                    break
     for j in range(len(steps)):
         for i in range(j):
             # the earlier identical request was answered (its uncached evaluation succeeds) under a rule that caches
@@ -341,6 +371,10 @@ def run_histories(R, exe, hist, stats):
                 stats["dim:expression_" + ("none" if not pol else "level" if isinstance(pol, int) else str(pol))] += 1
         for s in steps:
             stats["dim:step_" + s.get("_mut", "targeted")] += 1
+            if s.get("rotate"):
+                stats["dim:key_store_replaced_mechanism_recreated"] += 1
+            if s.get("reload"):
+                stats["dim:key_store_reload_in_place_" + s["reload"]] += 1
             if not g.cache_of(m, s.get("override", 0))[0]:
                 stats["dim:step_under_rule_with_cache_disabled"] += 1
         if "ep" in m:
@@ -354,6 +388,7 @@ def run_histories(R, exe, hist, stats):
         mres = vlib.res_of(mo)
         if isinstance(mo, dict) and "stats" in mo:
             stats["model_hits"] += mo["stats"].get("hits", 0)
+            stats["model_reloads"] += mo["stats"].get("reloads", 0)
         v = judge_history(m, steps, i, mres)
         if v:
             out.append((idx, v, i, mres))
@@ -817,7 +852,8 @@ def replay(R, path):
         pairs = []
         if "other" in p:
             pairs.append((p["other"], {"fn": hc["fn"], "cfg": p["other"]["cfg"], "pair": None}))
-        pairs.append((hc, {"fn": hc["fn"], "cfg": hc["cfg"], "pair": bool(pairs), "what": "replayed pair"}))
+        pairs.append((hc, {"fn": hc["fn"], "cfg": hc["cfg"], "pair": (p.get("pair") or True) if pairs else False,
+                      "what": "replayed pair"}))
         f = check_keys(R, exe, pairs, stats, "replay")
         print(json.dumps(f, indent=1, default=str)[:6000])
         if f:
